@@ -81,7 +81,7 @@ fn mk_pts<P: Pt>(v: &[P4]) -> Vec<P> {
 
 fn mk_polyline<P>(s: &MShape) -> GenericPolyline<P>
 where
-    P: Pt + shapefile::record::traits::ShrinkablePoint + shapefile::record::traits::GrowablePoint,
+    P: Pt + shapefile::record::traits::ShrinkablePoint + shapefile::record::traits::GrowablePoint + shapefile::record::traits::HasXY,
 {
     GenericPolyline::<P>::with_parts(s.parts.iter().map(|p| mk_pts::<P>(&p.pts)).collect())
 }
